@@ -117,11 +117,14 @@ def run_harness(binp, ops_path, out_path, op_timeout=60.0):
     return answers, crashes
 
 
-def merge(ops_path, answers, merged_path):
+def merge(ops_path, answers, merged_path, answers2=None):
     with open(merged_path, "w") as f:
         for i, l in enumerate(open(ops_path)):
             o = json.loads(l)
-            f.write(json.dumps({"i": i, "op": o, "impl": answers.get(i)}) + "\n")
+            d = {"i": i, "op": o, "impl": answers.get(i)}
+            if answers2 is not None and i in answers2:
+                d["impl2"] = answers2[i]
+            f.write(json.dumps(d) + "\n")
 
 
 def driver_encode(in_path, out_path):
